@@ -793,6 +793,17 @@ def _kron_instance(ck, prog, km, ns):
             conditioned = {k for k in range(ns) if any(len(c) > 3 and getattr(c[3], "term", None) is not None and c[3].term.syms() & {"u%dr" % k, "u%di" % k} for c in p.conds)}
             if t is None or t != x.term or (not steps and assumed_id != set(range(ns))):
                 v_ = _kron_vectorised(y.term if isinstance(y, VTens) else None, ns)
+                if v_ is None:
+                    la_ = _kron_layout(y.term if isinstance(y, VTens) else None, ns)
+                    if la_ is not None and la_[0] == "ok":
+                        ck.ok("C04.R4", inst + ":matrix s is contracted with the axis of site s (reshape / movedim sweep)", site, acts=str(la_[1]))
+                        continue
+                    if la_ is not None:
+                        ck.violation("C04.R4", inst + ":matrix s is contracted with the axis of site s (reshape / movedim sweep)", site,
+                                     "with the row index split into one axis per site (site 0 the most significant digit), matrix k is contracted with the axis of site %s%s: "
+                                     "site 0 is the leftmost factor of the tensor product, so matrix k must act on the axis of site k"
+                                     % (la_[1], " - the sites are taken in reversed order" if la_[0] == "reversed" else ""), key="C04.R4|%s|site axes" % inst)
+                        continue
                 lost = [e for e in p.effects if e.kind == "write" and getattr(e.obj, "maybe_copy", False) and getattr(e.obj, "reshape_of", None) is not None]
                 if v_ is None and lost and isinstance(y, VTens) and y.term is not None and not any(s_.startswith("u") and s_[1:-1].isdigit() for s_ in y.term.syms()):
                     # the returned tensor carries nothing of the matrices, and the sweep was written into the reshape of a tensor
@@ -895,6 +906,151 @@ def _kron_instance(ck, prog, km, ns):
             else:
                 ck.violation("C04.R4", inst + ":site s acts on the pairs {j, j + 2^(n-1-s)} once each", site,
                              "the unitaries act on the index pairs %s; expected %s" % (got, big))
+
+
+def _kron_layout(term, ns):
+    """A sweep written out of place as reshape / movedim / matmul chains: every axis of the intermediate tensors is followed by
+    name ('c' the (re, im) axis, 's<k>' the digit of site k - site 0 the most significant one -, 'T' whatever trails the row
+    axis), a matrix product with u<k> contracts the axis standing second to last.  Returns ('ok' | 'reversed' | 'wrong',
+    {matrix: site it acts on}) or None when a step is not followed or the result's rows are not back in their order."""
+    SIZE = {"c": 2}
+    for k_ in range(ns):
+        SIZE["s%d" % k_] = 2
+    acts = {}
+
+    class Lost(Exception):
+        pass
+
+    def atoms(labels):
+        out = []
+        for l_ in labels:
+            out.extend(atoms(l_) if isinstance(l_, tuple) else [l_])
+        return out
+
+    def regroup(labels, dims):
+        flat = atoms(labels)
+        out, pos = [], 0
+        for j, d in enumerate(dims):
+            d = str(d)
+            if d in ("-1", "?"):
+                # takes what the remaining named dims leave over
+                need_after = 1
+                for d2 in dims[j + 1:]:
+                    if str(d2) in ("-1", "?"):
+                        raise Lost()
+                    need_after *= int(d2)
+                rest = flat[pos:]
+                k_ = len(rest)
+                sz = 1
+                while k_ > 0 and sz < need_after:
+                    k_ -= 1
+                    if rest[k_] == "T":
+                        raise Lost()
+                    sz *= SIZE[rest[k_]]
+                if sz != need_after:
+                    raise Lost()
+                grp = rest[:k_]
+                pos += len(grp)
+            elif not d.lstrip("-").isdigit():
+                # a symbolic size: that of the trailing axis, which must be standing here by itself
+                if pos >= len(flat) or flat[pos] != "T":
+                    raise Lost()
+                grp = ["T"]
+                pos += 1
+            else:
+                want, sz, grp = int(d), 1, []
+                while sz < want:
+                    if pos >= len(flat) or flat[pos] == "T":
+                        raise Lost()
+                    sz *= SIZE[flat[pos]]
+                    grp.append(flat[pos])
+                    pos += 1
+                if sz != want:
+                    raise Lost()
+            out.append(grp[0] if len(grp) == 1 else tuple(grp))
+        if pos != len(flat):
+            raise Lost()
+        return out
+
+    def lay(t):
+        if not hasattr(t, "terms"):
+            raise Lost()
+        ls = None
+        for mono in t.terms:
+            ats = [a for a, _ in mono if not (isinstance(a, T.Sym) and a.name.startswith("lit:"))]
+            if len(ats) != 1 or dict(mono)[ats[0]] != 1:
+                raise Lost()
+            l_ = lay_atom(ats[0])
+            if ls is not None and atoms(l_) != atoms(ls):
+                raise Lost()
+            ls = l_
+        if ls is None:
+            raise Lost()
+        return ls
+
+    def lay_atom(a):
+        if isinstance(a, T.Sym):
+            if a.name in ("xr", "xi"):
+                return [tuple("s%d" % k_ for k_ in range(ns)) if ns > 1 else "s0", "T"]
+            raise Lost()
+        if not isinstance(a, T.App):
+            raise Lost()
+        if a.op == "stack0":
+            ls = [lay(c) for c in a.args]
+            if any(atoms(x) != atoms(ls[0]) for x in ls[1:]):
+                raise Lost()
+            return ["c"] + ls[0]
+        if a.op == "idx0":
+            l_ = lay(a.args[0])
+            if not l_ or l_[0] != "c":
+                raise Lost()
+            return l_[1:]
+        if a.op == "view" and isinstance(a.args[1], (tuple, list)):
+            return regroup(lay(a.args[0]), list(a.args[1]))
+        if a.op == "view" and isinstance(a.args[1], str) and a.args[1].startswith("merge_last") and a.args[1][10:].isdigit():
+            l_ = lay(a.args[0])
+            n_ = int(a.args[1][10:])
+            if len(l_) < n_:
+                raise Lost()
+            return l_[:-n_] + [tuple(atoms(l_[-n_:]))]
+        if a.op == "permute":
+            l_ = lay(a.args[0])
+            order = list(a.args[1])
+            if sorted(order) != list(range(len(l_))):
+                raise Lost()
+            return [l_[j] for j in order]
+        if a.op == "flatten_last2":
+            l_ = lay(a.args[0])
+            if len(l_) < 2:
+                raise Lost()
+            return l_[:-2] + [tuple(atoms(l_[-2:]))]
+        if a.op == "matmul" and len(a.args) == 2:
+            sy = a.args[0].syms() if hasattr(a.args[0], "syms") else set()
+            ks = {int(x[1:-1]) for x in sy if len(x) >= 3 and x[0] == "u" and x[1:-1].isdigit() and x[-1] in "ri"}
+            if len(sy) != 1 or len(ks) != 1:
+                raise Lost()
+            l_ = lay(a.args[1])
+            if len(l_) < 2 or isinstance(l_[-2], tuple) or not str(l_[-2]).startswith("s"):
+                raise Lost()
+            k_ = next(iter(ks))
+            site = int(l_[-2][1:])
+            if acts.get(k_, site) != site:
+                raise Lost()
+            acts[k_] = site
+            return l_
+        raise Lost()
+
+    try:
+        final = lay(term)
+    except (Lost, ValueError, KeyError, IndexError, TypeError):
+        return None
+    if atoms(final) != ["c"] + ["s%d" % k_ for k_ in range(ns)] + ["T"] or set(acts) != set(range(ns)):
+        return None
+    if all(acts[k_] == k_ for k_ in range(ns)):
+        return ("ok", acts)
+    if ns > 1 and all(acts[k_] == ns - 1 - k_ for k_ in range(ns)):
+        return ("reversed", acts)
+    return ("wrong", acts)
 
 
 def _kron_vectorised(term, ns):
